@@ -155,6 +155,18 @@ def in_context(p, how):
 
 
 CONTEXTS = ["macro", "filler", "name", "onerror", "repeat", "ns"]
+
+
+def in_contexts(progs, per, rnd):
+    """`per` sampled programs in each context (inside a named block the white space between repetitions travels through
+    the translation mapping, where the harness cannot leave it open: programs with tal:repeat stay out of that context)"""
+    out = []
+    for how in CONTEXTS:
+        pool = progs
+        if how == "name":
+            pool = [p for p in progs if not any(it["k"] == "open" and it["rep"]["m"] != "no" for it in p["items"])]
+        out += [in_context(p, how) for p in rnd.sample(pool, min(per, len(pool)))]
+    return out
 OUTER = ["define", "cond", "repeat", "omit", "attrs", "content", "switch"]
 
 
@@ -619,8 +631,8 @@ def shapes(al, tier, excs, ok=None):
         ("imp-pipe-last-bad", lambda: pipe(c(), c(), imp(False))),
         ("imp-str", lambda: strx(litp(), imp(True), litp(), c())),
         ("pyprefix-pipe", lambda: pipe(wrap("pyprefix", c()), wrap("pyprefix2", c()))),
-        ("pyprefix-not", lambda: not_(wrap("pyprefix", c()))),
-        ("pyprefix-str", lambda: strx(litp(), wrap("pyprefix", c()))),
+        ("not-pyprefix", lambda: not_(wrap("pyprefix", c()))),
+        ("str-pyprefix", lambda: strx(litp(), wrap("pyprefix", c()))),
         ("pipe-var", lambda: pipe(var("nope"), c())),
         ("var-builtin", lambda: pipe(var("len"), c())),
         ("attr", lambda: attr(al.call("content", [DICT([("a", S("b"))]), DICT([("z", S("b"))]), OBJ("attr"), NONE,
